@@ -93,6 +93,25 @@ theorem gwString_inj {k k' : Key} (h1 : '/' ∉ k.ns) (h2 : '/' ∉ k'.ns) (h : 
       simp only [Key.mk.injEq] at this ⊢
       exact ⟨by rw [h.1, this.1], this.2⟩
 
+/-! ### the loop in closed form -/
+
+theorem foldl_argStep (k : Key) (tmpl acc : List Str) :
+    tmpl.foldl (argStep k) acc = acc ++ tmpl.map (rewriteArg k) := by
+  induction tmpl generalizing acc with
+  | nil => simp
+  | cons a t ih =>
+    simp only [List.foldl_cons, ih, List.map_cons]
+    unfold argStep rewriteArg
+    split <;> simp
+
+theorem prepareArgs_eq (tmpl : List Str) (k : Key) (id : Str) :
+    prepareArgs tmpl k id = (gwFlag ++ gwString k) :: updFlag :: tmpl.map (rewriteArg k) := by
+  simp [prepareArgs, foldl_argStep]
+
+@[simp] theorem prepare_args (tmpl : List Str) (i : Nat) (k : Key) :
+    (prepare tmpl i k).args = (gwFlag ++ gwString k) :: updFlag :: tmpl.map (rewriteArg k) := by
+  simp [prepare, prepareArgs_eq]
+
 /-! ### prepared args -/
 
 theorem gwFlag_not_prefix_lock (x : Str) : (gwFlag.isPrefixOf (lockFlag ++ x)) = false := by
@@ -112,7 +131,7 @@ theorem tmplOK_of_all {tmpl : List Str} (h : tmpl.all (fun a => !gwFlag.isPrefix
 
 theorem gwFlag_prefix_mem_prepare {tmpl : List Str} (ht : TmplOK tmpl) (i : Nat) (k : Key) (a : Str)
     (ha : a ∈ (prepare tmpl i k).args) (hp : gwFlag.isPrefixOf a = true) : a = gwFlag ++ gwString k := by
-  simp only [prepare, List.mem_cons, List.mem_map] at ha
+  simp only [prepare_args, List.mem_cons, List.mem_map] at ha
   rcases ha with rfl | rfl | ⟨b, hb, rfl⟩
   · rfl
   · rw [gwFlag_not_prefix_upd] at hp; cases hp
@@ -122,9 +141,9 @@ theorem gwFlag_prefix_mem_prepare {tmpl : List Str} (ht : TmplOK tmpl) (i : Nat)
     · rw [ht b hb] at hp; cases hp
 
 theorem gwFlag_mem_prepare (tmpl : List Str) (i : Nat) (k : Key) :
-    gwFlag ++ gwString k ∈ (prepare tmpl i k).args := by simp [prepare]
+    gwFlag ++ gwString k ∈ (prepare tmpl i k).args := by simp
 
 theorem updFlag_mem_prepare (tmpl : List Str) (i : Nat) (k : Key) :
-    updFlag ∈ (prepare tmpl i k).args := by simp [prepare]
+    updFlag ∈ (prepare tmpl i k).args := by simp
 
 end NGF.Prov
